@@ -690,6 +690,10 @@ func (e *Engine) verifyVariant(fn *ssa.Function, c *Contract, plan aliasPlan, sc
 	for k := range st.nonzero {
 		st.entryNonzero[k] = true
 	}
+	if e.templateMode {
+		e.contractTemplate(st, fn, c, args)
+		return
+	}
 	old := st.fork()
 	// vacuity guard: the entry assumptions must be satisfiable
 	e.addCover(st, "entry")
